@@ -26,6 +26,9 @@ const (
 	LongArray
 )
 
+// Mega allows payloads above 1 MiB (set by harnesses that can afford them).
+var Mega bool
+
 type Node struct {
 	Tag      byte
 	Num      uint64 // integer value or IEEE bits
@@ -171,6 +174,10 @@ func GenTag(t *tape.Tape, tag byte, depth int) *Node {
 		if t.Bool(1, 40) {
 			cnt = 4090 + t.Choose(5000)
 		}
+		if Mega && t.Bool(1, 60) {
+			n.Bytes = megaBytes(t)
+			break
+		}
 		n.Bytes = t.Bytes(cnt)
 	case String:
 		n.Str = str(t)
@@ -232,5 +239,25 @@ func GenTag(t *tape.Tape, tag byte, depth int) *Node {
 
 // Gen generates a random tree with any of the 12 tags at the root.
 func Gen(t *tape.Tape, depth int) *Node {
+	if Mega && t.Bool(1, 16) {
+		// the document is one huge array: nothing follows it in the stream
+		return &Node{Tag: ByteArray, Bytes: megaBytes(t)}
+	}
 	return GenTag(t, 1+byte(t.Choose(12)), depth)
+}
+
+// megaBytes is a payload above 1 MiB (beyond any "small payload" shortcut); its
+// content comes from a private stream: one tape value, not a million.
+func megaBytes(t *tape.Tape) []byte {
+	cnt := 1<<20 + 1 + t.Choose(70000)
+	x := t.U64()
+	b := make([]byte, cnt)
+	for i := range b {
+		x += 0x9E3779B97F4A7C15
+		z := x
+		z = (z ^ (z >> 30)) * 0xBF58476D1CE4E5B9
+		z = (z ^ (z >> 27)) * 0x94D049BB133111EB
+		b[i] = byte(z ^ (z >> 31))
+	}
+	return b
 }
